@@ -197,10 +197,31 @@ GENERATORS = [gen_mlp, lambda t, r: gen_scalar("lstm", t, r), lambda t, r: gen_s
 
 
 # ------------------------------------------------------------------ CNN
-def cnn_moves(quick):
+def largest_fit(h, w, ks, ss, hl):
+    """largest kernel for layer hl that leaves every layer with an input >= its kernel (plain arithmetic, generator side)"""
+    best = 0
+    for k in range(1, 64):
+        ks2 = list(ks); ks2[hl] = k
+        x, y, ok = h, w, True
+        for kk, st in zip(ks2, ss):
+            if kk > x or kk > y:
+                ok = False; break
+            x, y = (x - kk) // st + 1, (y - kk) // st + 1
+        if ok:
+            best = k
+    return best
+
+
+def cnn_moves(quick, hw=None):
     def moves(a):
         n = len(a["channels"])
-        out = [S("add_layer", (0, 0)), S("add_layer", (1, 0)), S("add_layer", (0, 1)), S("add_layer", (2, 1))]
+        out = []
+        if hw is not None and n > 1:           # explicit kernels at the boundary of what still fits (roll-back decision)
+            for hl in range(1, n):
+                f = largest_fit(hw[0], hw[1], a["kernels"], a["strides"], hl)
+                if 1 <= f <= 9:
+                    out += [S("change_kernel", (0, 0), kernel_size=f, hidden_layer=hl), S("change_kernel", (0, 0), kernel_size=f + 1, hidden_layer=hl)]
+        out += [S("add_layer", (0, 0)), S("add_layer", (1, 0)), S("add_layer", (0, 1)), S("add_layer", (2, 1))]
         for r1 in range(n):
             out.append(S("remove_layer", (r1, 0)))
         for r1 in range(3):
@@ -232,7 +253,7 @@ def gen_cnn(tier, rng):
     cases += c; ex &= e
     st2 = {"input_shape": [1, 34, 30], "num_outputs": 2, "layer_norm": True, "init_layers": False}
     cfg2 = {"min_hidden_layers": 1, "max_hidden_layers": 2, "min_channel_size": 8, "max_channel_size": 24}
-    c, e = bfs("cnn", st2, cfg2, {"channels": [8], "kernels": [4], "strides": [2]}, cnn_moves(True), cnn_to_init,
+    c, e = bfs("cnn", st2, cfg2, {"channels": [8], "kernels": [4], "strides": [2]}, cnn_moves(True, (34, 30)), cnn_to_init,
                limit=250 if quick else 30000, tag="bfs-drawn")
     cases += c; ex &= e
     nw, ln = (4, 40) if quick else (12, 150)
@@ -462,3 +483,61 @@ def gen_round3(tier, rng):
 
 
 GENERATORS.append(gen_round3)
+
+
+# ------------------------------------------------------------------ round 5: non-unit strides, explicit kernels at the boundary of what fits
+STRIDED = [  # (input H, W, kernels, strides)
+    (32, 32, [4, 3], [4, 1]), (20, 28, [3, 3], [2, 2]), (11, 15, [3, 3], [1, 3]), (30, 36, [3, 2, 2], [3, 1, 2]), (28, 20, [4, 2], [2, 1]),
+]
+
+
+def boundary_steps(h, w, ks, ss):
+    steps = []
+    for hl in range(1, len(ks)):
+        f = largest_fit(h, w, ks, ss, hl)
+        for k in (f + 1, f + 2, f, f + 1, max(1, f - 1)):
+            if k - 0 <= 12 and (k > f or k <= 9):
+                steps.append(S("change_kernel", (0, 0), kernel_size=k, hidden_layer=hl))
+                if k <= f:
+                    ks = list(ks); ks[hl] = k
+    return steps
+
+
+def gen_round5(tier, rng):
+    cases = []
+    quick = tier == "quick"
+    ccfg = {"min_hidden_layers": 1, "max_hidden_layers": 4, "min_channel_size": 8, "max_channel_size": 64}
+    for (h, w, ks, ss) in STRIDED:
+        st = {"input_shape": [2, h, w], "num_outputs": 3, "layer_norm": False, "init_layers": False}
+        init = {"channels": [8] * len(ks), "kernels": list(ks), "strides": list(ss)}
+        steps = boundary_steps(h, w, ks, ss)
+        steps += [S("add_channel", (0, 0)), S("change_kernel", (0, 2)), S("change_kernel", (1, 1)), S("remove_layer", (0, 0)), S("add_layer", (1, 1))]
+        cases.append({"block": "cnn", "static": st, "cfg": ccfg, "init": init, "steps": steps, "every": 1, "src": "strided", "twin": True})
+        cases.append({"block": "cnn3d", "static": st, "cfg": ccfg, "init": init,
+                      "steps": [dict(x, args=dict(x["args"], kernel_size=[1, x["args"]["kernel_size"], x["args"]["kernel_size"]])) if "kernel_size" in x["args"] else x
+                                for x in steps], "every": 1, "src": "strided", "twin": True})
+        # failed call in the middle of a strided chain
+        bad = {"m": "change_kernel", "args": {}, "r": [0, 0], "bad": {"kernel_size": 2.5, "hidden_layer": 1}}
+        cases.append({"block": "cnn", "static": st, "cfg": ccfg, "init": init, "steps": steps[:2] + [bad] + steps[2:6], "every": 1, "src": "failed-call"})
+        # seeded walks from the strided start
+        for wk in range(1 if quick else 4):
+            wsteps = [S(rng.choice(["add_layer", "remove_layer", "change_kernel", "change_kernel", "add_channel", "remove_channel"]),
+                        (rng.randrange(1000), rng.randrange(1000))) for _ in range(12 if quick else 60)]
+            cases.append({"block": "cnn", "static": st, "cfg": ccfg, "init": init, "steps": wsteps, "every": 4, "src": "walk"})
+    # network-level CNN encoders with non-unit strides: explicit boundary kernels through 'encoder.change_kernel', clone before every step
+    for (img, ks, ss) in (([2, 20, 28], [3, 3], [2, 2]), ([2, 32, 32], [4, 3], [4, 1])):
+        ec = {"min_channel_size": 8, "max_channel_size": 48, "init_layers": False}
+        bs = boundary_steps(img[1], img[2], ks, ss)
+        steps = [dict(x, m="encoder.change_kernel") for x in bs] + [S("encoder.change_kernel", (0, 1)), S("add_latent_node", (0, 1)), S("encoder.add_channel", (1, 0)),
+                                                                   S("encoder.change_kernel", (0, 0), kernel_size=1, hidden_layer=1)]
+        for n in (("q",) if quick else ("q", "value", "rainbow")):
+            if n == "rainbow":
+                continue
+            cases.append({"block": "net", "net": n, "obs": "image", "img": img, "clone": True, "static": {},
+                          "cfg": {"min_latent_dim": 8, "max_latent_dim": 128, "encoder_config": ec, "head_config": {}},
+                          "init": {"latent": 32, "enc": {"layers": len(ks), "widths": [8] * len(ks), "kernels": list(ks), "strides": list(ss)}, "head": [32]},
+                          "steps": steps, "every": 1, "src": "strided", "twin": True})
+    return cases, True
+
+
+GENERATORS.append(gen_round5)
